@@ -17,7 +17,7 @@ ROUTE_RW = [
 ]
 def route_sched(name, run, shards=None, **kw):
     return unit(name, "route", ROUTE_COMMON + ["route/sched_test.go"], run, engines=SCHED, rewrite=ROUTE_RW, race=True,
-                sched_env={"GOMAXPROCS": "2"}, shards=shards or {"quick": 1, "thorough": 1}, **kw)
+                sched_env={"GOMAXPROCS": "1"}, shards=shards or {"quick": 1, "thorough": 1}, **kw)
 
 
 ENGINES = [
@@ -91,7 +91,7 @@ PROPS = {
         level_text="(inputs) 13 documented template forms x 9 paths x 3 queries x 2 hosts x strip x prepend x codes through the real HTTPProxy: status, Location and no upstream contact; invalid codes; the self-redirect skip. (schedules) every interleaving up to the reported preemption bound of 2-3 simultaneous requests through ServeHTTP over one shared redirect route; each gets its own Location. The route-package E1 scenarios of C06 (redirect-2req/3req) exercise the same seam at the Lookup level.",
         level_note="For templates without $path and without an own query the statement and fabio's own tests disagree on carrying the request query; both are accepted. Interleavings at sync-op and statement granularity of the rewritten route files.",
         units=[
-        unit("c13", "proxy", PROXY_COMMON + ["proxy/c13_test.go"], "^TestVerifC13", engines=SCHED, rewrite=ROUTE_RW, race=True, sched_env={"GOMAXPROCS": "2"}),
+        unit("c13", "proxy", PROXY_COMMON + ["proxy/c13_test.go"], "^TestVerifC13", engines=SCHED, rewrite=ROUTE_RW, race=True, sched_env={"GOMAXPROCS": "1"}),
     ], layers={"quick": ["c13-inputs", "c13-sched"], "thorough": ["c13-inputs", "c13-sched"]}),
     "C17": dict(level="model_checking", engine="vsched",
         technique="bounded-exhaustive inner-handler x request matrix through a real http.Server + stateless model checking of handlers over the shared writer pool",
@@ -99,7 +99,7 @@ PROPS = {
         level_note="Only the direction the statement gives is asserted: a compressed response implies the three conditions (plus correctness of the compressed stream); not compressing an eligible response is not a violation. Bodiless statuses (204/304) labelled gzip with an empty body are not flagged.",
         units=[
         unit("c17-inputs", "proxy/gzip", ["gzip/c17_test.go"], "^TestVerifC17Inputs", engines=SCHED),
-        unit("c17-sched", "proxy/gzip", ["gzip/c17_test.go"], "^TestVerifC17Sched", engines=SCHED, shards={"quick": 1, "thorough": 16}, rewrite=[{"files": ["proxy/gzip/gzip_handler.go"], "opts": ["-imports", "-stmt"]}], race=True, sched_env={"GOMAXPROCS": "2"}),
+        unit("c17-sched", "proxy/gzip", ["gzip/c17_test.go"], "^TestVerifC17Sched", engines=SCHED, shards={"quick": 1, "thorough": 16}, rewrite=[{"files": ["proxy/gzip/gzip_handler.go"], "opts": ["-imports", "-stmt"]}], race=True, sched_env={"GOMAXPROCS": "1"}),
     ], layers={"quick": ["c17-inputs", "c17-sched"], "thorough": ["c17-inputs", "c17-sched"]}),
     "C20": dict(level="exploration", engine="benum",
         technique="bounded-exhaustive events x formats against standard-library renderings; formatters on all 2^16 / 2^32 values",
@@ -117,6 +117,16 @@ PROPS = {
         units=[
         unit("c10", "proxy/tcp", TCP_COMMON + ["tcp/c10_test.go"], "^TestVerifC10"),
     ], layers={"quick": ["c10-sni"], "thorough": ["c10-sni"]}),
+    "C11": dict(level="model_checking", engine="vsched",
+        technique="bounded-exhaustive certificate-set x server-name selection (incl. real handshakes) + explicit enumeration of source histories through the real watch loop + stateless model checking of set replacement vs handshakes",
+        level_text="(selection) every ordered list of up to 3 of 6 generated leafs x 10 server names x strict/non-strict against the stated exact -> wildcard -> first/none rule, through getCertificate and real in-memory handshakes. (histories) every history up to length 4 (thorough 5) of 7 kinds of source answers through the real cert.watch with virtual sleep: published sets, never publishing bad material, no spinning. (schedules) every interleaving up to the reported bound of a publisher, the store's applier goroutine and 1-2 handshake threads.",
+        level_note="Wildcards are single-label (*.foo.com). The vault/consul/http sources share the watch loop; their transport is not exercised. When two certificates name the same host the later one is expected to win (that is what an index built in order does); first-wins would be flagged although the statement does not order them - no such set is in the alphabet except via the hand-picked pool where names are distinct.",
+        units=[
+        unit("c11-select", "cert", ["cert/c11_test.go"], "^TestVerifC11Select", engines=SCHED + ["vhook"]),
+        unit("c11-watch", "cert", ["cert/c11_test.go"], "^TestVerifC11Watch", engines=SCHED + ["vhook"], rewrite=[{"files": ["cert/watch.go"], "opts": ["-sel", "time.Sleep=vhook.Sleep"]}]),
+        unit("c11-sched", "cert", ["cert/c11_test.go"], "^TestVerifC11Sched", engines=SCHED + ["vhook"], race=True, sched_env={"GOMAXPROCS": "1"}, shards={"quick": 1, "thorough": 16},
+             rewrite=[{"files": ["cert/store.go"], "opts": ["-imports", "-stmt", "-only", "SetCertificates,certstore,getCertificate"]}, {"files": ["cert/source.go"], "opts": ["-imports", "-go", "-chan", "-only", "TLSConfig"]}]),
+    ], layers={"quick": ["c11-select", "c11-watch", "c11-sched"], "thorough": ["c11-select", "c11-watch", "c11-sched"]}),
 }
 
 def layer_unit(pid, layer):
